@@ -39,5 +39,7 @@ SEEDED = [
     ("C07-11", "C07-ATT"),
     ("C07-12", "C07-MEMO"),
     ("C07-13", "C07-ATT"),
+    ("C07-14", "C07-SHAPE"),
+    ("C07-15", "C07-USE"),
 ]
 MUTANTS = list(MUTANTS) + [_P("seed-" + sid, _os.path.join(_SEEDS, sid, "patch.diff"), rule) for sid, rule in SEEDED if _os.path.exists(_os.path.join(_SEEDS, sid, "patch.diff"))]
